@@ -139,6 +139,12 @@ def run(ctx, rep):
                        "%d plain integer +,-,*,neg sites in the operator impls wrap silently when overflow-checks is off "
                        "(e.g. 2147483647 + 1 == -2147483648)" % arith_sites, "Cargo.toml", fn="Cargo.toml", key="C05.no-wrap|profile|%s" % name)
 
+    # ---- operand order -----------------------------------------------------------------------------------
+    from props import _operands
+    nonc = [T.rt_fn(o) for o in ("Sub", "Div", "Rem", "Shl", "Shr", "lt", "le", "gt", "ge")]
+    n_sites = _operands.run(F, rep, "C05.operand-order", nonc, "interpreter")
+    rep.floor("C05.operand-order sites", n_sites, 60)
+
     # ---- (d) -------------------------------------------------------------------------------------------
     ncast = 0
     for f in ofns:
